@@ -22,6 +22,10 @@ NOCOUNT = 'count=0'   # instance re-explores a space owned by another instance (
 # with the quarantine off its allocator reuses the block at once (the harness records how often that happened)
 NOQUARANTINE = {'ASAN_OPTIONS': 'quarantine_size_mb=0:thread_local_quarantine_size_kb=0'}
 
+# recycled CLASS objects (a run-time class deleted, a differently named class allocated at its address): answered from the
+# address memo of the dead class on the tree without proposed/C08-recycled-class-memo.patch - switch on once it is applied
+RECYCLED_CLASSES = []        # ['classes=1']
+
 SEQUENTIAL = {
   'quick': (
     [T('matrix', 'base', 'mode=matrix', NOCOUNT),
@@ -31,7 +35,7 @@ SEQUENTIAL = {
     + [T('rt-small', 'base', 'mode=rt', 'ns=0,1,2,3,4', 'pool=8', 'variants=2'),
        T('rt-31-255', 'base', 'mode=rt', 'ns=31,255', 'variants=2'),
        T('rt-256', 'base', 'mode=rt', 'ns=256', 'variants=2'),
-       T('rt-recycle', 'base', 'mode=recycle'),
+       T('rt-recycle', 'base', 'mode=recycle', *RECYCLED_CLASSES),
        T('rt-prefix', 'base', 'mode=prefix'),
        # the same explorer one size step smaller under ASan+UBSan
        T('matrix-asan', 'asan', 'mode=matrix', NOCOUNT),
@@ -40,7 +44,7 @@ SEQUENTIAL = {
     + [T('long-asan', 'asan', 'mode=long', 'rotstep=7', NOCOUNT)]
     + [T('rt-small-asan', 'asan', 'mode=rt', 'ns=0,1,2,3,4,31', 'pool=7', 'variants=2', NOCOUNT),
        T('rt-256-asan', 'asan', 'mode=rt', 'ns=255,256', 'variants=1', 'stride=16', NOCOUNT),
-       T('rt-recycle-asan', 'asan', 'mode=recycle', NOCOUNT, env=NOQUARANTINE),
+       T('rt-recycle-asan', 'asan', 'mode=recycle', NOCOUNT, *RECYCLED_CLASSES, env=NOQUARANTINE),
        T('rt-prefix-asan', 'asan', 'mode=prefix', NOCOUNT)]
   ),
   'thorough': (
@@ -53,7 +57,7 @@ SEQUENTIAL = {
        T('rt-mid', 'base', 'mode=rt', 'ns=5,8,17,18,19,31,32,64', 'kinds=2', 'variants=3'),
        T('rt-128-255', 'base', 'mode=rt', 'ns=128,255', 'kinds=2', 'variants=3'),
        T('rt-256', 'base', 'mode=rt', 'ns=256', 'kinds=2', 'variants=3'),
-       T('rt-recycle', 'base', 'mode=recycle', 'full=1'),
+       T('rt-recycle', 'base', 'mode=recycle', 'full=1', *RECYCLED_CLASSES),
        T('rt-prefix', 'base', 'mode=prefix'),
        T('matrix-asan', 'asan', 'mode=matrix', NOCOUNT),
        T('cast-asan', 'asan', 'mode=cast', NOCOUNT)]
@@ -63,7 +67,7 @@ SEQUENTIAL = {
     + [T('rt-small-asan', 'asan', 'mode=rt', 'ns=0,1,2,3,4', 'pool=8', 'variants=2', NOCOUNT),
        T('rt-31-255-asan', 'asan', 'mode=rt', 'ns=31,255', 'variants=2', NOCOUNT),
        T('rt-256-asan', 'asan', 'mode=rt', 'ns=256', 'variants=2', NOCOUNT),
-       T('rt-recycle-asan', 'asan', 'mode=recycle', 'full=1', NOCOUNT, env=NOQUARANTINE),
+       T('rt-recycle-asan', 'asan', 'mode=recycle', 'full=1', NOCOUNT, *RECYCLED_CLASSES, env=NOQUARANTINE),
        T('rt-prefix-asan', 'asan', 'mode=prefix', NOCOUNT)]
   ),
 }
@@ -117,13 +121,18 @@ CHECK = {
            'instance or not at all; the FIRST lookup on T2 is X (each entry point, first and last member), then a sweep over 38 '
            'classes; a case counts as executed only if T2 really received the address T1 had (recycle_same_address in the '
            'evidence; the ASan instance runs with the quarantine off for that reason); interleave = lookups of X alternating between '
-           'three live types that declare X with instance I1, with I2, and not at all. prefix = five user classes whose names are '
+           'three live types that declare X with instance I1, with I2, and not at all; with classes=1 also recycled CLASS objects: a '
+           'run-time class named A is looked up on a type declaring "A" (run-time [A], [K10, A], static [Print, Pri], [Pri, Print]), '
+           'deleted, and a class with another name (undeclared, or the other declared one) created on the same block; lookups '
+           'through it (8 x 8 entry points, 1344 cases) must be answered by its name. prefix = five user classes whose names are '
            'prefixes of one another (K1/K10/K100, Pri/Print): run-time types over every non-empty subset in every declaration '
            'order (325) x every order of first lookups of the five classes (120) with rotating entry points, then a sweep; and '
            'seven statically declared types over the same classes (longer before shorter, shorter before longer, only one of '
            'them) x 120 lookup orders x 8 starting entry points, each from the cold record; and six classes with long names (two '
            '40-byte names differing at byte 33, a 64-byte name that is a prefix of a 100-byte one, two 255-byte names differing '
-           'in the last byte): every subset in every declaration order (1956 types) x 12 lookup orders. cast = all ordered '
+           'in the last byte): every subset in every declaration order (1956 types) x 12 lookup orders; and two LIVE class objects '
+           'of one name (the static class and a run-time class object called "Pri" / "K10") asking in either order on 10 types '
+           '(5120 histories). Run-time class objects record size 0, one member or the full struct. cast = all ordered '
            'pairs of exported types, for a harness object of the type and for the type object itself. '
            'states = distinct (type, configuration) pairs reached (interned) in the deepest history family of the tier (pairs in '
            'quick, triples in thorough; shards partition the types) plus, for each run-time type object, 1 + the number of '
